@@ -380,6 +380,58 @@ def answers_settle(P, R, rule='C03.MPT.4'):
     R.floor(rule, 1)
 
 
+DECOYS = ('OKAY', 'OKfoo bar', 'NOTICE x', 'NOPE', 'AGAINST all odds', 'AGAINx', 'MOREOVER x', 'MOREx')
+
+
+def decoys_unrecognised(P, R, rule='C04.TAB.3'):
+    """"Every other reply produces no output and no difference in any later behaviour": a text that merely BEGINS like a
+    keyword (`OKAY`, `NOTICE ...`, `AGAINST ...`, `MOREOVER ...`) is not that keyword.  Along every path of a reply
+    handler that inspected the bytes of the reply text and reaches a point where the reply is acted on - the awaited bit
+    given back, or a verdict - what the path learned about the text rules out every decoy: the keyword was compared
+    whole AND the byte after it was found to be the terminator or the blank."""
+    V = core.verdict_fns(P)
+    from .c05 import reply_closure
+    n = 0
+    for f in reply_closure(P).values():
+        textp = [p['name'] for p in f.param_info if p['t'].startswith('const char')]
+        rel_sites = {t.key for t in f.stores() if t.ev['k'] == 'store' and is_field(t.ev['lhs'], holds.MASK) and t.ev.get('op') == '&='}
+        if not textp or not rel_sites:
+            continue
+
+        def on_edge(st, e):
+            r = rules.edge_rel(e)
+            if not r:
+                return st
+            if is_var(r[0]) and r[0]['name'] in textp and const_of(r[2]) == 0 and r[1] == '==':
+                return st | frozenset([(r[0]['name'], 'absent')])
+            ft = _text_fact(r, textp)
+            if ft is None:
+                return st
+            return st | frozenset([ft])
+        before, _, sin, bout = f.forward(frozenset(), lambda st, t: st, on_edge)
+        acts = [t for t in f.sites() if t.key in rel_sites or (t.ev['k'] == 'call' and any(g.key in V for g in P.callees(t, True)))]
+        for t in acts:
+            worst = None
+            for st in before.get(t.key, set()):
+                facts = [x for x in st if x[1] in ('byte', 'cmp')]
+                if not facts or any(x[1] == 'absent' for x in st):
+                    continue
+                for v in {x[0] for x in facts}:
+                    for cand in DECOYS:
+                        if all(_fact_holds(x, cand) for x in facts if x[0] == v):
+                            worst = (cand, facts)
+                            break
+                    if worst:
+                        break
+                if worst:
+                    break
+            n += 1
+            R.ob(rule, worst is None, t, 'a reply is acted on here only if it IS a documented answer, not a text that begins like one%s' % (
+                (': %r gets here past (%s)' % (worst[0], '; '.join(sorted('%s[%s] %s %r' % (x[0], x[2], x[3], chr(x[4])) if x[1] == 'byte' else 'cmp(%s,%r,%s) %s 0' % (x[0], x[2], x[3], x[4]) for x in worst[1]))[:200])) if worst else ''),
+                key='decoy:%s:%s' % (f.name, 'release' if t.key in rel_sites else 'verdict'))
+    R.floor(rule, 2, 'points where a reply is acted on')
+
+
 def release_recognised(P, R, cl, rule='C02.GRD.6'):
     """The awaiting bit of a service is given back only for a reply the handler understood: on every path to the
     release some test of the reply (its absence, a keyword, a leading character) was taken in the affirmative.  A path
